@@ -58,7 +58,7 @@ def _ops(old: str, new: str):
         excluded.add(14)
     internal_types = [t for t in range(0, INTERNAL_MAX[old] + 1) if t not in excluded]
     itype = st.one_of(st.sampled_from(internal_types), st.sampled_from([t for t in (0, 1, 3, 6, 11, 12, 13, 14, 21, 22) if t in internal_types]))
-    ipayload = st.sampled_from(("", "1", "55", "100", "name", "7", "abc", "150"))
+    ipayload = st.sampled_from(("", "1", "55", "100", "name", "7", "abc", "150", "55.5", "99.7", "100.6", "-0.6", "0.5", "2.5", "3", "1000", "12"))
     send = st.builds(lambda n, c, t, v, b: ["send", [n, c, 1, 0, t, v], b], node, child, st.sampled_from((0, 2)), value, st.sampled_from((None, None, False)))
     lines = st.one_of(
         st.builds(lambda n, t, v: f"{n};255;0;0;{t};{v}\n", node, ptype, st.sampled_from(("2.0", "1.4", "2.2.0"))),
@@ -110,7 +110,8 @@ ENUM_REGISTRY = {
 
 def enumerate_cases(tier: str):
     """Every message type of the older table x a small payload pool x both ack flags, one step each, on a known registry."""
-    payloads = ("", "1", "55", "name", "abc", "100.4", "x;y", "2.0") if tier == "quick" else ("", "1", "55", "name", "abc", "100.4", "x;y", "2.0", "150", "-1", "ü", "7 ")
+    payloads = ("", "1", "55", "name", "abc", "100.4", "x;y", "2.0", "55.5", "99.7", "100.6", "-0.6", "2.5") if tier == "quick" else (
+        "", "1", "55", "name", "abc", "100.4", "x;y", "2.0", "150", "-1", "ü", "7 ", "55.5", "99.7", "100.6", "-0.6", "0.5", "1.5", "2.5", "1e2", "0x10", " 5")
     for old, new in PAIRS:
         cross = old.startswith("1") and new.startswith("2")
         excluded = {2} | ({22} if new == "2.2" else set()) | ({14} if cross else set())
@@ -123,6 +124,16 @@ def enumerate_cases(tier: str):
                 yield {"pair": [old, new], "metric": bool(ack), "registry": ENUM_REGISTRY,
                        "ops": [op for line in lines for op in (["rx", line],)] + [["send", [2, 0, 1, 0, 0, "9"], None], ["rx", "1;0;2;0;0;\n"], ["rx", "1;0;1;0;0;5\n"]]}
     yield from _type_sweep()
+    # sequences of the same report with changing values (growing, shrinking, repeating), with a command parked in between
+    for old, new in PAIRS:
+        excluded = {2} | ({22} if new == "2.2" else set())
+        for mtype in [t for t in (0, 22, 32, 11, 12, 18) if t <= INTERNAL_MAX[old] and t not in excluded]:
+            for seq in (("100", "7"), ("7", "100"), ("5", "5"), ("100", "7", "8", "6"), ("0", "100", "0")):
+                ops = []
+                for idx, text in enumerate(seq):
+                    ops += [["rx", f"2;255;3;0;{mtype};{text}\n"], ["send", [2, 0, 1, 0, 0, f"v{idx}"], None], ["rx", f"1;255;3;1;{mtype};{text}\n"]]
+                ops += [["rx", "2;0;2;0;0;\n"]]
+                yield {"pair": [old, new], "metric": True, "registry": ENUM_REGISTRY, "ops": ops}
     # the same requests in other time zones of the controller process
     for old, new in PAIRS:
         for zone in ("<+0530>-5:30", "<-08>8", "<+14>-14", "JST-9"):
